@@ -14,6 +14,7 @@ void _ZN8Pistache4Http6Header10Connection8parseRawEPKcm(u8*, u8*, u64); void _ZN
 void _ZN8Pistache4Http6Header14EncodingHeader8parseRawEPKcm(u8*, u8*, u64); void _ZNK8Pistache4Http6Header14EncodingHeader5writeERSo(u8*, u8*);
 void _ZN8Pistache4Http6Header6Expect8parseRawEPKcm(u8*, u8*, u64); void _ZNK8Pistache4Http6Header6Expect5writeERSo(u8*, u8*);
 void _ZN8Pistache4Http6Header13ContentLength5parseERKNSt7__cxx1112basic_stringIcSt11char_traitsIcESaIcEEE(u8*, u8*); void _ZNK8Pistache4Http6Header13ContentLength5writeERSo(u8*, u8*);
+void _ZN8Pistache4Http6Header12CacheControl8parseRawEPKcm(u8*, u8*, u64); void _ZNK8Pistache4Http6Header12CacheControl5writeERSo(u8*, u8*);
 /* environment (RawStreamBuf construction) */
 void _ZNSt6localeC1Ev(u8* l) { (void)l; } void _ZNSt6localeD1Ev(u8* l) { (void)l; }
 void _ZNSt15basic_streambufIcSt11char_traitsIcEED2Ev(u8* s) { (void)s; }
@@ -39,7 +40,19 @@ u64 _ZNSt7__cxx115stollERKNS_12basic_stringIcSt11char_traitsIcESaIcEEEPmi(u8* s,
   if (end == GS(s)->p) { vp_throw_std(_ZTISt16invalid_argument); return 0; }
   if (vp_errno == 34) { vp_throw_std(_ZTISt12out_of_range); return 0; }
   if (pos) *(u64*)pos = (u64)(end - GS(s)->p); return v; }
-static gos_t os1, os2; static u8 hdr1[16] __attribute__((aligned(8))), hdr2[16] __attribute__((aligned(8)));
+/* CacheControl: std::vector<CacheDirective> = ghost { count, (directive, delta)[2] } per header object; os << long prints the harness's digits */
+typedef struct { u64 n; u32 dir[2]; u64 delta[2]; } gcd_t;
+static gcd_t cdv[2]; static u8 cd_tmp[2][SIZEOF_CacheDirective] __attribute__((aligned(8)));
+static u8 cc_dig[8]; static u64 cc_nd, cc_val;
+u8* _ZNSo9_M_insertIlEERSoT_(u8* os, u64 v) { __CPROVER_assert(v == cc_val, "the delta-seconds written is the directive's"); gos_put((gos_t*)os, cc_dig, cc_nd, 8); return os; }
+static gos_t os1, os2; static u8 hdr1[48] __attribute__((aligned(8))), hdr2[48] __attribute__((aligned(8)));
+static gcd_t* cdv_of(u8* v) { return v == hdr1 + OFF_CacheControl_directives ? &cdv[0] : &cdv[1]; }
+u64 _ZNKSt6vectorIN8Pistache4Http14CacheDirectiveESaIS2_EE4sizeEv(u8* v) { return cdv_of(v)->n; }
+u8* _ZNKSt6vectorIN8Pistache4Http14CacheDirectiveESaIS2_EEixEm(u8* v, u64 i) { gcd_t* g = cdv_of(v); __CPROVER_assert(i < g->n, "directive index inside the vector"); u8* t = cd_tmp[i & 1]; *(u32*)(t + OFF_CacheDirective_directive) = g->dir[i & 1]; *(u64*)(t + 8) = g->delta[i & 1]; return t; }
+u64 _ZNK8Pistache4Http14CacheDirective5deltaEv(u8* d) { return *(u64*)(d + 8); }
+static u8* cd_push(u8* v, u32 dir, u64 delta) { gcd_t* g = cdv_of(v); __CPROVER_assert(g->n < 2, "ghost directive vector capacity"); if (g->n < 2) { g->dir[g->n] = dir; g->delta[g->n] = delta; g->n++; } return cd_tmp[0]; }
+u8* _ZNSt6vectorIN8Pistache4Http14CacheDirectiveESaIS2_EE12emplace_backIJRKNS2_9DirectiveEEEERS2_DpOT_(u8* v, u8* dir) { return cd_push(v, *(u32*)dir, 0); }
+u8* _ZNSt6vectorIN8Pistache4Http14CacheDirectiveESaIS2_EE12emplace_backIJRKNS2_9DirectiveENSt6chrono8durationIlSt5ratioILl1ELl1EEEEEEERS2_DpOT_(u8* v, u8* dir, u8* secs) { return cd_push(v, *(u32*)dir, *(u64*)secs); }
 static void same_text(void) { __CPROVER_assert(os1.len == os2.len, "writing the parsed header again yields text of the same length"); for (u64 i = 0; i < VP_OSMAX; i++) if (i < os1.len && os1.len == os2.len) __CPROVER_assert(os1.log[i] == os2.log[i], "writing the parsed header again yields identical text"); }
 int main(void) {
   __ir_init_globals(); gos_init(&os1, VP_OSMAX - 1); gos_init(&os2, VP_OSMAX - 1);
@@ -82,6 +95,28 @@ int main(void) {
   __CPROVER_assert(!vp_take_exception() && !os1.failed, "the written Content-Length is accepted");
   __CPROVER_assert(*(u64*)(hdr2 + OFF_ContentLength_value) == cl_val, "Content-Length: write -> parse yields the same value");
   _ZNK8Pistache4Http6Header13ContentLength5writeERSo(hdr2, (u8*)&os2); same_text();
+#elif defined(H_CACHE)
+  u32 dir; VP_SET(u32, dir, "directive"); __CPROVER_assume(dir < VP_CD_EXT);
+#ifdef DIRFIX
+  dir = DIRFIX;      /* one query per directive kind keeps the written text concrete up to the digits */
+#endif
+  int timed = dir == VP_CD_MAXAGE || dir == VP_CD_MAXSTALE || dir == VP_CD_MINFRESH || dir == VP_CD_SMAXAGE;
+#ifndef CCDIG
+#define CCDIG 3
+#endif
+  VP_SET(u64, cc_nd, "ndigits"); __CPROVER_assume(cc_nd >= 1 && cc_nd <= CCDIG); cc_val = 0;
+  for (int i = 0; i < CCDIG; i++) { VP_SET(u8, cc_dig[i], "digit"); __CPROVER_assume(cc_dig[i] >= '0' && cc_dig[i] <= '9'); if (i < (int)cc_nd) cc_val = cc_val * 10 + (cc_dig[i] - '0'); }
+  __CPROVER_assume(cc_nd == 1 || cc_dig[0] != '0');
+#ifdef EXCLUDE_ZERO_DELTA
+  if (timed) __CPROVER_assume(cc_val != 0);
+#endif
+  cdv[0].n = 1; cdv[0].dir[0] = dir; cdv[0].delta[0] = timed ? cc_val : 0; cdv[1].n = 0;
+  _ZNK8Pistache4Http6Header12CacheControl5writeERSo(hdr1, (u8*)&os1); os1.log[os1.len] = 0;
+  __CPROVER_assert(!vp_take_exception() && !os1.failed, "write does not fail");
+  _ZN8Pistache4Http6Header12CacheControl8parseRawEPKcm(hdr2, os1.log, os1.len);
+  __CPROVER_assert(!vp_take_exception(), "the written Cache-Control directive is accepted by the parser");
+  __CPROVER_assert(cdv[1].n == 1 && cdv[1].dir[0] == dir && cdv[1].delta[0] == cdv[0].delta[0], "Cache-Control: write -> parse yields the same directive and delta-seconds");
+  _ZNK8Pistache4Http6Header12CacheControl5writeERSo(hdr2, (u8*)&os2); same_text();
 #endif
   VP_END("witness: end of harness reached");
   return 0;
